@@ -364,9 +364,24 @@ def obs_join(ctx, cdir, tag_a, tag_b, mode, nshards, what):
             continue
         k = next(j for j in range(0, len(a), 8) if a[j:j + 8] != b[j:j + 8]) // 8
         ndiff = sum(1 for j in range(0, len(a), 8) if a[j:j + 8] != b[j:j + 8])
+        # turn the mismatch into a self-contained witness: re-run exactly that case in both configurations
+        witness = {}
+        for tag in (tag_a, tag_b):
+            cmd = [os.path.join(cdir, "bin", tag, f"shard{i}"), "--corpus", os.path.join(cdir, "corpus.json"), "--mode", "stream", "--seed", str(ctx.seed),
+                   "--tier", ctx.tier, "--case-index", str(k)] + (["--cap", str(tier_params(ctx.tier)["cap"])] if True else [])
+            try:
+                rc, out = sh(cmd, cwd=cdir, timeout=900)
+                line = next((l for l in out.splitlines() if l.startswith("CASE ")), None)
+                if line:
+                    witness[tag] = json.loads(line[5:])
+            except Inconclusive:
+                pass
+        w0 = next(iter(witness.values()), {})
         ctx.add_violation({"property": ctx.prop, "level": "R", "rule": "cross-config-observation-differs", "shard": i, "case_index": k,
-                           "configs": [tag_a, tag_b], "mode": mode, "corpus_dir": cdir,
-                           "detail": f"{what}: {ndiff} case(s) of shard {i} observed differently (first: case #{k}); replay prints both streams"})
+                           "configs": [tag_a, tag_b], "mode": mode, "def": w0.get("def"), "input_hex": w0.get("input_hex"), "config": tag_a.replace("-release", ""),
+                           "def_source": w0.get("source"), "observed": {t: w.get("observed") for t, w in witness.items()},
+                           "detail": f"{what}: {ndiff} case(s) of shard {i} observed differently; first: case #{k} definition {w0.get('def')} input {w0.get('input_text')!r}: "
+                                     + " | ".join(f"{t}: {json.dumps(w.get('observed', {}).get('items'))}" for t, w in witness.items())})
     return total
 
 
